@@ -198,6 +198,18 @@ Theorem C06_reads_linearisable_oci :
 Proof. exact reads_linearisable_oci. Qed.
 Print Assumptions C06_reads_linearisable_oci.
 
+(* OCI Tags: at every reachable configuration the set of names listed is the one the sequential
+   execution of the commit log lists *)
+Theorem C06_tags_linearisable_oci :
+  forall (U : N -> gkey) (B : N -> blob) (progs : list (list op)) (sched : list nat),
+  (forall g, k_dig (U g) = g) -> Forall (wf_op U B) (concat progs) ->
+  let cf := oconf_run (oconf_init progs) sched in
+  let q := fst (run oci_step oci_init (map snd (oc_log cf))) in
+  forall n l l', snd (oci_step (oc_store cf) Tags) = OTags l -> snd (oci_step q Tags) = OTags l' ->
+                 (In (RName n) l <-> In (RName n) l').
+Proof. exact tags_linearisable_oci. Qed.
+Print Assumptions C06_tags_linearisable_oci.
+
 Theorem C06_reads_linearisable_file :
   forall (fx ig ov : bool) (progs : list (list op)) (sched : list nat),
   Forall untitled (concat progs) ->
